@@ -91,6 +91,11 @@ CATALOG = [
     dict(id="signatures remove", argv=["signatures", "remove", "{in}", "{out}"], kind="file", input="signed", inplace=True, stream=True),
     dict(id="merge", argv=["merge", "{out}", "{in}", "{aux:in2.pdf}"], kind="file", input="small"),
     dict(id="merge zip", argv=["merge", "-m", "zip", "{out}", "{in}", "{aux:in2.pdf}"], kind="file", input="small"),
+    # abbreviated / alternative spellings of mode flags (completion by unique prefix)
+    dict(id="merge -m c", argv=["merge", "-m", "c", "{out}", "{in}", "{aux:in2.pdf}"], kind="file", input="small"),
+    dict(id="merge --mode=z", argv=["merge", "--mode=z", "{out}", "{in}", "{aux:in2.pdf}"], kind="file", input="small"),
+    dict(id="merge -m a", argv=["merge", "-m", "a", "{out}", "{in}", "{aux:in2.pdf}"], kind="mergeappend", input="small"),
+    dict(id="extract -m p", argv=["extract", "-m", "p", "-p", "1-2", "{in}", "{outdir}"], kind="dir", input="small"),
     dict(id="import", argv=["import", "{out}", "{aux:logo.png}"], kind="file", input=None),
     dict(id="create", argv=["create", "{aux:create.json}", "{out}"], kind="file", input=None),
     dict(id="nup", argv=["nup", "{out}", "4", "{in}"], kind="file", input="small"),
